@@ -160,6 +160,11 @@ func shrinkCands(x any) []any {
 		c.Canceller = nil
 		add(c)
 	}
+	if sc.Ctx.Impl != "" {
+		c := sc.clone()
+		c.Ctx.Impl = ""
+		add(c)
+	}
 	// run a member directly instead of the flow around it
 	if root := sc.Nodes[sc.Root]; root.Kind == "flow" {
 		seen := map[int]bool{}
@@ -178,6 +183,11 @@ func shrinkCands(x any) []any {
 			continue
 		}
 		if n.Kind == "flow" {
+			if len(n.Settings) > 0 {
+				c := sc.clone()
+				c.Nodes[id].Settings = nil
+				add(c)
+			}
 			for k := range n.LateConns {
 				c := sc.clone()
 				cn := c.Nodes[id]
